@@ -88,29 +88,66 @@ func collectTemplates(c *core.Ctx, r *core.Report) []viewTemplate {
 			continue
 		}
 		for vf, v := range an.LiteralFields(lit) {
-			inner := an.StructLiteralOf(v)
-			if inner == nil {
-				if a, ok := v.(*ssa.Alloc); ok {
-					inner = a
+			// the templates of this view, whatever the View keeps them in: the template-typed fields of its literal,
+			// or the template-typed arguments of the constructor that builds it
+			isTemplate := func(t types.Type) bool {
+				p, ok := t.(*types.Pointer)
+				return ok && an.IsNamed(p.Elem(), "text/template", "Template")
+			}
+			var tmpls []ssa.Value
+			if call, isCall := an.Strip(v).(*ssa.Call); isCall && an.Callee(call) != nil && core.InModule(an.Callee(call)) {
+				for _, a := range call.Call.Args {
+					if isTemplate(a.Type()) {
+						tmpls = append(tmpls, a)
+					}
+				}
+			} else {
+				inner := an.StructLiteralOf(v)
+				if inner == nil {
+					if a, ok := v.(*ssa.Alloc); ok {
+						inner = a
+					}
+				}
+				if inner == nil {
+					continue
+				}
+				lf := an.LiteralFields(inner)
+				var names []string
+				for n := range lf {
+					names = append(names, n)
+				}
+				sort.Strings(names)
+				for _, n := range names {
+					if isTemplate(lf[n].Type()) {
+						tmpls = append(tmpls, lf[n])
+					}
 				}
 			}
-			if inner == nil {
-				continue
-			}
-			lf := an.LiteralFields(inner)
-			tty, notty := lf["tty"], lf["notty"]
-			if tty == nil || notty == nil {
+			if len(tmpls) < 2 {
 				r.Violation("views.New#"+vf, an.Pos(c, ret), "view %s does not have both a tty and a notty template", vf)
 				continue
 			}
-			ft, _ := an.TerminalField(tty)
-			fn, _ := an.TerminalField(notty)
-			if ft == nil || fn == nil || ft.Name() != fn.Name() {
-				r.Violation("views.New#"+vf, an.Pos(c, ret), "view %s pairs template %s (tty) with a different template (notty): the two output forms state different things", vf, an.D().Of(tty))
+			ft, _ := an.TerminalField(tmpls[0])
+			same := ft != nil
+			sets := map[string]bool{}
+			for _, t := range tmpls {
+				f2, _ := an.TerminalField(t)
+				if f2 == nil || ft == nil || f2.Name() != ft.Name() {
+					same = false
+				}
+				// which parsed set it is taken from: the parseTemplates call behind it
+				d := an.D().Of(t)
+				if i := strings.Index(d, "parseTemplates("); i >= 0 {
+					if j := strings.Index(d[i:], ")"); j >= 0 {
+						sets[d[i:i+j+1]] = true
+					}
+				}
+			}
+			if !same {
+				r.Violation("views.New#"+vf, an.Pos(c, ret), "view %s pairs template %s with a different template: the two output forms state different things", vf, an.D().Of(tmpls[0]))
 				continue
 			}
-			td, nd := an.D().Of(tty), an.D().Of(notty)
-			r.Check(strings.Contains(td, "parseTemplates(true)") && strings.Contains(nd, "parseTemplates(false)"), "views.New#"+vf+"-colours", an.Pos(c, ret), "tty uses the coloured set, notty the plain set", "tty/notty templates of "+vf+" come from "+td+" / "+nd)
+			r.Check(len(sets) == len(tmpls), "views.New#"+vf+"-colours", an.Pos(c, ret), "one template from each parsed set (coloured, plain)", sprintf("the templates of %s come from %d parsed sets, expected %d (one per rendering)", vf, len(sets), len(tmpls)))
 			viewOf[vf] = ft.Name()
 		}
 	}
